@@ -80,3 +80,59 @@ fn c13_duplication() {
     kani::cover!(dup_rank(d_out) == 0 && dup_rank(d_out2) == 3 && level2 == Level::Info, "adapted from None to Info");
     std::mem::forget(mw);
 }
+
+// ------------------------------------------------------------------------------------------------
+// forwarding to the configured "other" writer: write / flush / shutdown / max_log_level
+struct CountW;
+impl LogWriter for CountW {
+    fn write(&self, _now: &mut DeferredNow, _r: &Record) -> std::io::Result<()> {
+        vs::cell_inc(2);
+        Ok(())
+    }
+    fn flush(&self) -> std::io::Result<()> {
+        vs::cell_inc(3);
+        Ok(())
+    }
+    fn max_log_level(&self) -> log::LevelFilter {
+        log::LevelFilter::Warn
+    }
+    fn shutdown(&self) {
+        vs::cell_inc(4);
+    }
+}
+fn cut_flw_write(_w: &FileLogWriter, _now: &mut DeferredNow, _r: &Record) -> std::io::Result<()> {
+    unreachable!("VERIF-CUT FileLogWriter::write (no file writer configured)")
+}
+fn cut_flw_flush(_w: &FileLogWriter) -> std::io::Result<()> {
+    unreachable!("VERIF-CUT FileLogWriter::flush (no file writer configured)")
+}
+fn cut_flw_shutdown(_w: &FileLogWriter) {
+    unreachable!("VERIF-CUT FileLogWriter::shutdown (no file writer configured)")
+}
+// @verif prop=C04,C13 tier=quick timeout=600 bounds=MultiWriter(other-writer-only,no-duplication),all-5-levels
+// MultiWriter forwards every record exactly once to its configured writer, and flush() / shutdown() reach that writer exactly once each (so that LoggerHandle::flush / ::shutdown / drop leave nothing behind in it); max_log_level is the writer's.
+#[kani::proof]
+#[kani::unwind(4)]
+#[kani::stub(verif_support::reexp::catch_unwind, verif_support::stub_cu)]
+#[kani::stub(crate::util::write_buffered, rec_write_buffered)]
+#[kani::stub(<crate::writers::FileLogWriter as crate::writers::LogWriter>::write, cut_flw_write)]
+#[kani::stub(<crate::writers::FileLogWriter as crate::writers::LogWriter>::flush, cut_flw_flush)]
+#[kani::stub(<crate::writers::FileLogWriter as crate::writers::LogWriter>::shutdown, cut_flw_shutdown)]
+fn c04_multiwriter_forwarding() {
+    vs::link_all();
+    let mw = MultiWriter::new(Duplicate::None, Duplicate::None, false, fmt_err, fmt_out, None, Some(Box::new(CountW)));
+    let level = any_level();
+    let mut now = DeferredNow::new();
+    let r = log::Record::builder().level(level).target("t").args(format_args!("m")).build();
+    let w = mw.write(&mut now, &r);
+    std::mem::forget(w);
+    assert!(vs::cell_get(2) == 1 && vs::cell_get(0) == 0 && vs::cell_get(1) == 0);
+    let f = LogWriter::flush(&mw);
+    std::mem::forget(f);
+    assert!(vs::cell_get(3) == 1);
+    LogWriter::shutdown(&mw);
+    assert!(vs::cell_get(4) == 1);
+    assert!(mw.max_log_level() == log::LevelFilter::Warn);
+    kani::cover!(level == Level::Trace, "trace record");
+    std::mem::forget(mw);
+}
